@@ -61,3 +61,9 @@ Theorem C19_noopt_breaks_space_form :
   forall noopt d, noopt <> ""%string -> parse_given noopt LongSpace d <> (d, 0).
 Proof. exact parse_given_noopt_refuted. Qed.
 Print Assumptions C19_noopt_breaks_space_form.
+
+(** no numeric option is compared with its own documented default besides the five reviewed,
+    documented "-1" sentinels: the default is never silently "not set" *)
+Theorem C19_no_unreviewed_default_sentinel : unreviewed_sentinels default_sentinel_sites = [].
+Proof. vm_compute. reflexivity. Qed.
+Print Assumptions C19_no_unreviewed_default_sentinel.
